@@ -134,9 +134,7 @@ def r34_pairing_and_metric(ctx, f, fam, results):
     key = ast.unparse(agg[0].targets[0].slice)
     ok = ast.unparse(agg[0].value.args[0]).endswith(f'[{key}]')
   ctx.check(R, ok, f.node, f, agg[0] if agg else 'np.mean', 'the reported value must be the mean over the samples of the same tensor')
-  # object dtype tensors are skipped, nothing else
-  skips = [n for n in ast.walk(l) if isinstance(n, ast.If) and any(isinstance(x, ast.Continue) for x in n.body)]
-  ctx.check(R, all('np.object_' in ast.unparse(s.test) for s in skips), l, f, 'skips', 'only non-numeric (object dtype) tensors may be skipped')
+  # which tensors may be skipped (object dtype, nothing else) is decided on values by the validation simulation C18.R9
   sig_key, _ = _signature_loops(f)
   sig_loop = _signature_loops.outer
   add = [c for c in common.calls_in(f.node) if common.call_name(c).endswith('add_new_signature_results')]
@@ -294,16 +292,18 @@ def r9_validation_simulation(ctx, R='C18.R9'):
   outputs / constants / intermediates of that signature."""
   import fractions  # pylint: disable=g-import-not-at-top
   from sa import absint  # pylint: disable=g-import-not-at-top
-  from sa.consteval import Obj  # pylint: disable=g-import-not-at-top
-  rs = ctx.rule(R, 'validation simulation: per signature, every common tensor gets mean over its samples of metric(target, reference), filed in exactly one group', floor=1)
+  from sa.consteval import Ext, Obj  # pylint: disable=g-import-not-at-top
+  rs = ctx.rule(R, 'validation simulation: per signature, every common tensor with numbers in it (float, integer, boolean - all but strings) gets mean over its samples of metric(target, reference), filed in exactly one group', floor=1)
   cm = ctx.repo.func(f'{MV}:compare_model')
   ctx.instance(R)
   F = fractions.Fraction
   # two signatures with different tensors, sample counts and subgraphs; one tensor exists only in the reference, one only in the target
   SIG = {
-      'sa': {'subgraph': 0, 'inputs': ['a_in'], 'outputs': ['a_out'], 'constants': ['a_w'], 'tensors': ['a_in', 'a_w', 'a_mid', 'a_out', 'a_refonly'], 'samples': [1, 2, 3]},
+      'sa': {'subgraph': 0, 'inputs': ['a_in'], 'outputs': ['a_out'], 'constants': ['a_w'], 'tensors': ['a_in', 'a_w', 'a_mid', 'a_mask', 'a_idx', 'a_str', 'a_out', 'a_refonly'], 'samples': [1, 2, 3]},
       'sb': {'subgraph': 1, 'inputs': ['b_in'], 'outputs': ['b_out'], 'constants': [], 'tensors': ['b_in', 'b_mid', 'b_out'], 'samples': [5, 7]},
   }
+  # tensors of every kind of content: a boolean mask, integer indices, a quantized constant - and one string tensor (numpy object dtype), the only kind that has no numbers to compare
+  DTYPE = {'a_mask': 'bool_', 'a_idx': 'int32', 'a_w': 'int8', 'a_str': 'object_', 'b_mid': 'float16'}
   TARGET_EXTRA = {'sa': ['a_quantized_only'], 'sb': []}
 
   def value(model, name, sample):   # a deterministic "tensor value"
@@ -320,7 +320,7 @@ def r9_validation_simulation(ctx, R='C18.R9'):
     if model == 'tgt':
       names = [n for n in names if not n.endswith('refonly')]
     interp = Obj('x:Interpreter', {'model': model, 'key': key, 'sample': sample['s']})
-    details = {n: {'index': (names.index(n), model, key), 'dtype': 'float32', 'name': n} for n in names}
+    details = {n: {'index': (names.index(n), model, key), 'dtype': Ext('np.' + DTYPE.get(n, 'float32')), 'name': n} for n in names}
     return (interp, SIG[key]['subgraph'] + (0 if model == 'ref' else 10), details)   # the two models number their subgraphs differently
 
   def get_data(args, kwargs):
@@ -359,7 +359,7 @@ def r9_validation_simulation(ctx, R='C18.R9'):
       continue
     for key in order:
       r = res[key].fields
-      common_names = [n for n in SIG[key]['tensors'] if not n.endswith('refonly')]
+      common_names = [n for n in SIG[key]['tensors'] if not n.endswith('refonly') and DTYPE.get(n) != 'object_']
       want = {n: sum(metric([value('tgt', n, s), value('ref', n, s)], {}) for s in SIG[key]['samples']) / len(SIG[key]['samples']) for n in common_names}
       groups = {'input_tensors': SIG[key]['inputs'], 'output_tensors': SIG[key]['outputs'], 'constant_tensors': SIG[key]['constants']}
       groups['intermediate_tensors'] = [n for n in common_names if not any(n in g for g in groups.values())]
